@@ -152,23 +152,21 @@ impl MarkdownWriter {
         for inline in inlines {
             match inline {
                 GraphInline::Code(_, code) => {
-                    events.push(Event::Start(Tag::CodeBlock(
-                        pulldown_cmark::CodeBlockKind::Fenced(code.into()),
-                    )));
-                    events.push(Event::End(TagEnd::CodeBlock));
+                    events.push(Event::Code(code.into()));
                 }
                 GraphInline::Emph(vec) => {
                     events.push(Event::Start(Tag::Emphasis));
                     events.extend(self.inlines_to_events(vec));
                     events.push(Event::End(TagEnd::Emphasis));
                 }
-                GraphInline::Image(url, title, _) => {
+                GraphInline::Image(url, title, inlines) => {
                     events.push(Event::Start(Tag::Image {
                         title: title.into(),
-                        link_type: pulldown_cmark::LinkType::Autolink,
+                        link_type: pulldown_cmark::LinkType::Inline,
                         dest_url: url.into(),
                         id: "".into(),
                     }));
+                    events.extend(self.inlines_to_events(inlines));
                     events.push(Event::End(TagEnd::Image));
                 }
                 GraphInline::LineBreak => {
@@ -176,7 +174,10 @@ impl MarkdownWriter {
                 }
                 GraphInline::Link(url, title, t, inlines) => {
                     let text = inlines_to_markdown(&inlines, &self.options);
-                    if !is_ref_url(&url) && text.eq_ignore_ascii_case(&url) {
+                    if t == document::LinkType::WikiLink {
+                        // written as is: the event writer knows no wiki links and would make it "[](url)"
+                        events.push(Event::InlineHtml(format!("[[{}]]", url).into()));
+                    } else if !is_ref_url(&url) && text.eq_ignore_ascii_case(&url) {
                         events.push(Event::Start(Tag::Link {
                             title: title.into(),
                             link_type: pulldown_cmark::LinkType::Autolink,
